@@ -130,10 +130,12 @@ def code_of(conv):
     import inspect
     out = {}
     for name, g in conv.items():
-        if g is None:
+        if g is None or hasattr(g, '__wrapped__'):
+            # the malt.convert decorator returns a wrapper that converts when it is called: inspect.getsource would
+            # follow __wrapped__ to the user's own source, which is not generated code
             continue
         try:
-            out[name] = inspect.getsource(inspect.unwrap(g) if hasattr(g, '__wrapped__') and False else g)
+            out[name] = inspect.getsource(g)
         except Exception as e:
             out[name] = None
     return out
